@@ -25,7 +25,7 @@ KS(alg, b) == [alg |-> alg, b |-> b]
 TNoKey == [alg |-> "", b |-> <<>>]
 TNoSig == <<>>
 IsWipedState(s) == s.alg # "" /\ s.b = WipedKey(N(s.alg))
-TSignable(s) == s.alg # "" /\ SignOk(s.alg, s.b) /\ WithinLimits(ParseKey(s.alg, s.b).params)
+TSignable(s) == s.alg # "" /\ SignOk(s.alg, s.b) /\ WithinLimits(ParseKey(s.alg, s.b).params) /\ Representable(N(s.alg), ParseKey(s.alg, s.b).params)
 TSucc(s) == KS(s.alg, SuccKey(s.alg, s.b))
 TAfter(s, r) ==
     \/ IsWipedState(s)
